@@ -15,7 +15,7 @@ var c18Srcs = []string{"int", "int32", "int64", "float32", "float64", "decstr", 
 var c18Dsts = []string{"Int", "Int32", "Int64", "Float32", "Float64"}
 
 func C18_Jobs() []string {
-	var out []string
+	out := []string{"literal/huge-strings"}
 	for _, s := range c18Srcs {
 		for _, d := range c18Dsts {
 			if s == "fltstr" && d[0] == 'I' {
@@ -71,6 +71,34 @@ func c18CheckIssue(errs z.ZogIssueList, untouched bool) {
 }
 
 func C18_Run(job string) {
+	if job == "literal/huge-strings" {
+		// integer-syntax strings beyond the destination's range are reported, never saturated
+		lits := []string{"9223372036854775808", "99999999999999999999", "-9223372036854775809", "18446744073709551616", "2147483648", "-2147483649", "1e19", "1e400"}
+		s := lits[v.Choice("lit", len(lits))]
+		var i int
+		var i64 int64
+		var i32 int32
+		var f32 float32
+		small := s == "2147483648" || s == "-2147483649"
+		e1 := z.Int().Parse(s, &i)
+		e2 := z.Int64().Parse(s, &i64)
+		e3 := z.Int32().Parse(s, &i32)
+		if small {
+			v.Cover("success")
+			v.Assert(len(e1) == 0 && len(e2) == 0 && v.Itoa(i) == s && i64 == int64(i), "C18:value-changed")
+		} else {
+			v.Assert(len(e1) == 1 && len(e2) == 1 && i == 0 && i64 == 0, "C18:out-of-range-accepted")
+		}
+		v.Cover("issue")
+		v.Assert(len(e3) == 1 && e3[0].Code == "coerce" && i32 == 0, "C18:out-of-range-accepted")
+		if s == "1e400" {
+			e4 := z.Float32().Parse(s, &f32)
+			var f64 float64
+			e5 := z.Float64().Parse(s, &f64)
+			v.Assert(len(e4) == 1 && len(e5) == 1, "C18:out-of-range-accepted")
+		}
+		return
+	}
 	var src, dst string
 	for i := 0; i+1 < len(job); i++ {
 		if job[i] == '-' && job[i+1] == '>' {
